@@ -46,7 +46,7 @@ func (fv *FuncVer) smtGround(q *Query) string {
 			as = append(as, a)
 		}
 	}
-	return fv.smtText(&Query{Assumptions: as, Goal: q.Goal}, false)
+	return fv.smtText(&Query{Assumptions: as, Goal: q.Goal}, true)
 }
 
 func (fv *FuncVer) smtText(q *Query, wantModel bool) string {
@@ -86,6 +86,8 @@ func (fv *FuncVer) smtText(q *Query, wantModel bool) string {
 }
 
 type solveResult struct {
+	groundSat   bool   // the instantiated, quantifier-free variant is satisfiable: a candidate counterexample
+	groundModel string
 	result string
 	solver string
 	ms     int
@@ -165,6 +167,10 @@ func solve2(text, ground string, timeout time.Duration, thorough bool) solveResu
 		if o.r == "unsat" || (o.r == "sat" && o.full) {
 			res.result, res.solver, res.ms, res.model = o.r, o.name, o.ms, o.model
 			return res
+		}
+		if o.r == "sat" && !o.full {
+			res.groundSat = true
+			res.groundModel = o.model
 		}
 		if res.result == "unknown" && o.full && o.r == "timeout" {
 			res.result = "timeout"
